@@ -3,6 +3,7 @@ from __future__ import annotations
 
 import ast
 import copy
+import re
 
 from ..absint import parent_map, enclosing
 from ..loader import norm, own_nodes, AnalysisError
@@ -31,6 +32,10 @@ NEG = {ast.Eq: ast.NotEq, ast.NotEq: ast.Eq, ast.Lt: ast.GtE, ast.GtE: ast.Lt, a
 
 
 class _Undecided(Exception):
+    pass
+
+
+class _Composed(Exception):
     pass
 
 
@@ -106,6 +111,16 @@ def predicate_text(fn, ctx):
             raise _Undecided('no predicate lambda')
         body = _Norm(lam.args.args[0].arg).visit(copy.deepcopy(lam.body))
         return norm(ast.fix_missing_locations(body)), call
+    if callee in SELECTORS and callee != fn.name:
+        # delegation to another selector: fine when it selects from `table` itself with all arguments handed on;
+        # a selection of a selection applies `complement` to the outer predicate only
+        if not call.args or not isinstance(call.args[0], ast.Name):
+            raise _Composed('%s(%s, ...)' % (callee, norm(call.args[0])[:40] if call.args else ''))
+        pred = SELECTORS[callee]
+        names = [norm(a) for a in call.args[2:]]
+        for placeholder, actual in zip([w for w in ('value', 'minv', 'maxv', 'n') if w in pred], names):
+            pred = re.sub(r'\\b%s\\b' % placeholder, actual, pred)
+        return pred, call
     raise _Undecided('returns %s(...)' % callee)
 
 
@@ -250,6 +265,11 @@ def run(ctx):
             n += 1
         try:
             got, call = predicate_text(fn, ctx)
+        except _Composed as e:
+            rep.violated('R13.2', fn, 'predicate',
+                         '%s is built as a selection of a selection (%s): `complement` then negates only the outer '
+                         'predicate, so the selection and its complement no longer partition the input' % (fn.name, e), fn.node)
+            continue
         except _Undecided as e:
             rep.undecided('R13.2', fn, 'predicate', str(e), fn.node)
             continue
@@ -368,6 +388,15 @@ def r134(ctx, rep):
         rep.violated('R13.4', rs, 'islice(it, *sliceargs)',
                      'rowslice must apply itertools.islice(it, *sliceargs) to the data rows; found %s'
                      % [norm(c) for c in calls], rs.node)
+    rv = ctx.project.need_fn('petl.transform.basics:RowSliceView.__init__')
+    stores = [n for n in own_nodes(rv.node) if isinstance(n, ast.Assign) and any(norm(t) == 'self.sliceargs' for t in n.targets)]
+    vals = sorted(norm(n.value) for n in stores)
+    if vals and all(v in ('sliceargs', '(None,)') for v in vals) and 'sliceargs' in vals:
+        rep.held('R13.4', rv, 'self.sliceargs', 'the user\'s slice arguments are stored unchanged (%s)' % vals, rv.node)
+    else:
+        rep.violated('R13.4', rv, 'self.sliceargs',
+                     'the slice arguments are rewritten before they reach itertools.islice (%s): e.g. a stop of 0 or a step '
+                     'are no longer interpreted as islice would' % vals, stores[0] if stores else rv.node)
     hd = ctx.project.need_fn('petl.transform.basics:head')
     calls = [n for n in own_nodes(hd.node) if isinstance(n, ast.Call) and norm(n.func) == 'rowslice']
     if len(calls) == 1 and [norm(a) for a in calls[0].args] == ['table', 'n'] and not calls[0].keywords:
